@@ -289,9 +289,12 @@ def parse_dot(path):
     return inits, edges
 
 
-def edge_cover(inits, edges, maxlen=400):
+def edge_cover(inits, edges, maxlen=400, budget=None, seed=1):
     """Paths (lists of labels) from an initial state that together cover every
-    edge reachable from the initial states.  Returns (paths, n_edges_covered)."""
+    edge reachable from the initial states.  Returns (paths, n_edges_total).
+    With budget=N the cover stops after about N steps in total (target edges
+    are then taken in a seeded random order); edge_cover.last_covered tells
+    how many edges were covered."""
     adj = {}
     for i, (u, v, l) in enumerate(edges):
         adj.setdefault(u, []).append((v, l, i))
@@ -331,8 +334,17 @@ def edge_cover(inits, edges, maxlen=400):
         return p
 
     paths = []
-    for u in order:
+    steps = 0
+    visit = list(order)
+    if budget:
+        import random
+        random.Random(seed).shuffle(visit)
+    for u in visit:
+        if budget and steps > budget:
+            break
         while True:
+            if budget and steps > budget:
+                break
             e = first_uncovered(u)
             if e is None:
                 break
@@ -348,7 +360,9 @@ def edge_cover(inits, edges, maxlen=400):
                 cur = v
                 e = first_uncovered(cur)
             paths.append(path)
+            steps += len(path)
     total = sum(len(adj.get(u, ())) for u in order)
+    edge_cover.last_covered = len(covered)
     return paths, total
 
 
@@ -561,7 +575,7 @@ def check_trace(run, what, trace_module, cfg, trace_path, script_path=None, time
     return n
 
 
-def exec_script(run, exe, args, script_text, trace_path, what, timeout=900, env=None):
+def exec_script(run, exe, args, script_text, trace_path, what, timeout=150, env=None):
     """run a driver on a script; a crash / sanitizer report / FATAL event is a violation"""
     if script_text is not None:
         with open(trace_path + ".script", "w") as f:
